@@ -95,7 +95,7 @@ class SubStepFailed(Exception):
 
 # ---- reference semantics on a plain interpreter (independent of sismic.bdd) -------------------------
 
-def ref_scenario(sc, steps):
+def ref_scenario(sc, steps, want_trace=False):
     it = Interpreter(sc)
     trace = None
     monitoring = False
@@ -208,7 +208,20 @@ def ref_scenario(sc, steps):
         except Exception:
             out.append('error')
             failed = True
+    if want_trace:
+        return out, trace
     return out
+
+
+def sent_so_far(sc, steps):
+    """events sent per macro step of the when-block a `then` step placed now would judge (used by
+    the generator only, to write assertions that are *true* for a non-obvious reason)"""
+    try:
+        out, trace = ref_scenario(copy.deepcopy(sc), [st for st in steps if st[0] in ('given', 'when')],
+                                  want_trace=True)
+    except Exception:       # noqa
+        return []
+    return [[e for e in m.sent_events] for m in (trace or [])]
 
 
 # ---- the pattern table: code vs documentation -------------------------------------------------------
@@ -325,6 +338,19 @@ class C19(Prop):
                                 ps.append(['nosuch', 1])
                             rnd.shuffle(ps)
                         a = [k, rnd.choice(('out', 'o2', 'e', 'n0')), ps]
+                        if rnd.random() < 0.5:
+                            # a fact that holds: one of the events really sent, by preference one that
+                            # comes after another event of the same name in its macro step
+                            per_step = sent_so_far(sc, steps)
+                            late = [e for evs in per_step for i, e in enumerate(evs)
+                                    if any(f.name == e.name for f in evs[:i])]
+                            pool = late if late and rnd.random() < 0.8 else [e for evs in per_step for e in evs]
+                            if pool:
+                                e = rnd.choice(pool)
+                                data = [[kk, vv] for kk, vv in e.data.items()
+                                        if isinstance(vv, (int, bool)) and kk in ('v', 'b', 'delay')]
+                                rnd.shuffle(data)
+                                a = [k, e.name, data[:rnd.randint(1, max(1, len(data)))]]
                     elif k == 'not_fired':
                         a = [k, rnd.choice(('out', 'o2', 'e', 'n1'))]
                     elif k in ('var_eq', 'var_ne'):
